@@ -137,15 +137,23 @@ def structural(tier, res):
     res.functions[fi.qualname] = fi.describe()
     fn = fi.node
     bad = []
+    # error sinks: the exception constructor, and helpers whose own `line` / `line_num` parameters flow into nothing but that constructor
+    sinks = {'MerchantParseError'}
+    try:
+        hf = find_function(ME + 'MerchantEngine._check_expression')
+        if all(_inside_call_of(n, parents, {'MerchantParseError'}) for nm in ('line', 'line_num') for n, parents in _uses(hf.node, nm)):
+            sinks.add('_check_expression')
+    except Exception:
+        pass
     for n, parents in _uses(fn, 'line'):
         p = parents[id(n)]
         ok = (isinstance(p, ast.Attribute) and p.attr == 'strip' and isinstance(parents[id(p)], ast.Call) and not parents[id(p)].args) \
-            or _inside_call_of(n, parents, {'MerchantParseError'})
+            or _inside_call_of(n, parents, sinks)
         if not ok:
             bad.append('line %d: raw `line` used outside line.strip() / error objects' % n.lineno)
     for n, parents in _uses(fn, 'line_num'):
         p = parents[id(n)]
-        ok = _inside_call_of(n, parents, {'MerchantParseError'}) or \
+        ok = _inside_call_of(n, parents, sinks) or \
             (isinstance(p, ast.Assign) and ast.unparse(p.targets[0]) == 'rule_start_line')
         if not ok:
             bad.append('line %d: line_num flows into semantic state' % n.lineno)
